@@ -81,7 +81,7 @@ theorem logs_append_only (cfg : Cfg) (evs more : List Ev) :
       (after cfg evs).notified <+: (after cfg (evs ++ more)).notified := by
   unfold after
   rw [run_append]
-  exact run_grows cfg more _
+  exact ⟨(run_grows cfg more _).1, (run_grows cfg more _).2.1⟩
 
 /-- once a notification was delivered it stays the only one, whatever happens later -/
 theorem notify_never_changes (cfg : Cfg) (wf : WF cfg) (evs more : List Ev) (r : Report)
@@ -232,6 +232,14 @@ theorem close_never_raises (cfg : Cfg) (wf : WF cfg) (evs : List Ev) :
   refine ⟨(inv_after cfg wf evs).raised, ?_⟩
   obtain ⟨x, _, heq⟩ := userClose_spec cfg wf _ (inv_after cfg wf evs)
   exact ⟨x, _, by rw [heq]⟩
+
+/-- the `raised` flag is sticky (for every configuration): so `close_never_raises` at the end of
+    a history covers every close() — top-level or re-entrant — inside that history -/
+theorem raised_sticky (cfg : Cfg) (evs more : List Ev) (h : (after cfg evs).raised = true) :
+    (after cfg (evs ++ more)).raised = true := by
+  unfold after at h ⊢
+  rw [run_append]
+  exact (run_grows cfg more _).2.2 h
 
 /-- **C09, protocols are closed exactly once**, in registration order, however many times
     close() is called and however many reports arrive; not at all while the device is open. -/
